@@ -283,3 +283,33 @@ def no_memo(ctx, rep, rule, module_names, why):
            not memo, "no lru_cache / cache decorator" if not memo else
            "%s is decorated with @%s: %s" % (memo[0][0].qual.split(".", 2)[-1], memo[0][1], why),
            memo[0][0].loc if memo else None, kind="model")
+
+
+_PURE_CALLS = {"isinstance", "issubclass", "len", "type", "hasattr", "callable", "all", "any", "str", "repr", "bool", "int", "id",
+               "getattr", "tuple", "list", "set", "frozenset", "dict", "sorted", "min", "max", "abs", "sum"}
+
+
+def no_effects_in_assert(ctx, rep, rule, modules, pure_extra=()):
+    """`assert` statements are removed by `python -O` / PYTHONOPTIMIZE: whatever they evaluate must be free of effects. A read
+    from the stream, a send, a pop, a next() inside an assert happens in one interpreter mode and not in the other - the protocol
+    state of the two modes diverges. Calls of pure builtins and of the package's own predicates listed in `pure_extra` are fine."""
+    n_assert = 0
+    bad = []
+    for mn in modules:
+        m = ctx.repo.modules.get(mn)
+        if m is None:
+            continue
+        for n in ast.walk(m.tree):
+            if isinstance(n, ast.Assert):
+                n_assert += 1
+                for c in [x for x in ast.walk(n) if isinstance(x, ast.Call)]:
+                    d = A.call_name(c) or A.src(c.func)
+                    if d in _PURE_CALLS or d in pure_extra:
+                        continue
+                    bad.append((mn, n, c))
+    rep.ob(rule, "package: assert statements evaluate nothing with an effect (they vanish under python -O)", not bad,
+           "%d assert statement(s) in %d modules, pure tests only" % (n_assert, len(modules)) if not bad else
+           "%s: `%s` inside an assert is not executed when the interpreter runs with -O / PYTHONOPTIMIZE: the two modes consume "
+           "different amounts of the stream / leave different state behind" % (bad[0][0], A.src(bad[0][2])[:60]),
+           ctx.loc(bad[0][1]) if bad else None, kind="site")
+    return n_assert
